@@ -204,6 +204,27 @@ def run_case(cls, params, rec):
 			additional_nonlinear_ops=ov, **k3)
 		rec.count("prior_override_calls")
 
+	refs_all = [None]
+	has_pool = any(s_["t"] == "maxpool" for s_ in spec)
+
+	def tie_margin(rows):
+		"""Smallest top-1/top-2 margin inside a max-pooling window over the
+		given examples and their references (see dls.min_pool_margin)."""
+		if refs_all[0] is None:
+			if refmode == "tensor":
+				refs_all[0] = kw["references"]
+			else:
+				k4 = {k_: v_ for k_, v_ in kw.items() if k_ not in (
+					"raw_outputs", "hypothetical")}
+				k4["return_references"] = True
+				refs_all[0] = deep_lift_shap(copy.deepcopy(model), X,
+					args=args, batch_size=n * ns + 3, **k4)[1]
+		xs = torch.cat([X[rows], refs_all[0][rows].reshape(-1, A, L)]).type(
+			torch.float64)
+		extra = () if args is None else tuple(torch.cat([a_[rows],
+			a_[rows].repeat_interleave(ns, 0)]) for a_ in args)
+		return dls.min_pool_margin(copy.deepcopy(model), (xs,) + extra)
+
 	def compare(tag, idx, got, rows=None):
 		attr, ref = got
 		exp = b_attr[idx]
@@ -211,6 +232,21 @@ def run_case(cls, params, rec):
 			for q in range(len(idx))):
 			bad = [int(q) for q in range(len(idx)) if not rel_close(
 				attr[q], exp[q])] if attr.shape == exp.shape else "shape"
+			if bad != "shape" and has_pool:
+				# a tie for a window maximum: which of the tied positions
+				# receives the multiplier is decided by rounding noise of the
+				# preceding layers (it differs by an ulp between batch
+				# compositions), the attribution is not unique there
+				real = []
+				for q in bad:
+					mg = tie_margin([int(idx[q])])
+					if mg < 1e-9:
+						rec.minv("pool_tie_margin_of_ambiguous_rows", mg)
+					else:
+						real.append(q)
+				if not real:
+					return "ambiguous"
+				bad = real
 			return dict(desc, what="attribution differs from the "
 				"single-batch baseline (%s)" % tag, rows=bad, examples=idx,
 				max_abs_diff=float((attr - exp).abs().max())
@@ -228,6 +264,9 @@ def run_case(cls, params, rec):
 				bs, st), error=repr(got)[:300]), mech="C06/" + st)
 			return
 		d = compare("batch_size=%d" % bs, full, got)
+		if d == "ambiguous":
+			rec.inconclusive(cls, params, "tie for a max-pooling window maximum")
+			return
 		rec.count("batch_sizes_compared")
 		if d is not None:
 			d["batch_size"] = bs
@@ -260,6 +299,9 @@ def run_case(cls, params, rec):
 					idx, st), error=repr(got)[:300]), mech="C06/" + st)
 				return
 			d = compare("subset batch_size=%d" % bs, idx, got)
+			if d == "ambiguous":
+				rec.inconclusive(cls, params, "tie for a max-pooling window maximum")
+				return
 			if d is not None:
 				rec.violation(cls, params, d, mech="C06/co-batch-dependence")
 				return
@@ -274,6 +316,9 @@ def run_case(cls, params, rec):
 					mech="C06/" + st)
 				return
 			d = compare("permutation batch_size=%d" % bs, perm, got)
+			if d == "ambiguous":
+				rec.inconclusive(cls, params, "tie for a max-pooling window maximum")
+				return
 			if d is not None:
 				rec.violation(cls, params, d, mech="C06/order-dependence")
 				return
@@ -286,6 +331,9 @@ def run_case(cls, params, rec):
 					mech="C06/" + st)
 				return
 			d = compare("duplicate", dup, got)
+			if d == "ambiguous":
+				rec.inconclusive(cls, params, "tie for a max-pooling window maximum")
+				return
 			if d is not None:
 				rec.violation(cls, params, d, mech="C06/co-batch-dependence")
 				return
